@@ -48,7 +48,7 @@ func main() {
 		"distinct = hash(shape, start, depth, filter class, source kind, API); non-trivial = start node has ≥ 2 proper ancestors (under the source's relation), and for filter cases the filter keeps ≥ 1 and drops ≥ 1 predecessor edge")
 	r.Assume("Docker-schema manifests are not generated in filter cases (statement speaks of OCI artifact types)")
 	r.Assume("remote sources expose subject links only (Referrers API or referrers tag schema)")
-	worker.Run(r, worker.Opts{Phase: "xcopy", Total: r.N(900, 12000), Batch: 100, Timeout: 20 * time.Minute})
+	worker.Run(r, worker.Opts{Phase: "xcopy", Total: r.N(2000, 20000), Batch: 100, Timeout: 20 * time.Minute})
 	if bin := os.Getenv("VERIF_RACE_BIN"); bin != "" {
 		raceDir, _ := os.MkdirTemp("", "verif-c03-race-")
 		r.Cleanup(func() { os.RemoveAll(raceDir) })
@@ -56,7 +56,7 @@ func main() {
 			Env: []string{"GORACE=halt_on_error=0 exitcode=0 log_path=" + filepath.Join(raceDir, "race")}})
 		mon.ReportRaces(r, raceDir)
 	}
-	r.Finish(r.N(100, 1500))
+	r.Finish(r.N(200, 2500))
 }
 
 var srcKinds = []string{"memory", "memory", "oci", "oci-reopen-rw", "oci-reopen-fs", "oci-reopen-tar", "file", "remote-api", "remote-tags"}
